@@ -49,7 +49,10 @@ CFG = {
             "2 tripods + 3 mixed + 3 random in quick, 60 + 40 random in thorough), canvases with more jobs than the "
             "runtime.NumCPU() pool workers (a tube through NumCPU+4 surface-bearing blocks marched at GOMAXPROCS 2 and, "
             "parallel variants only, under -race; 2 x (NumCPU+1) accumulation jobs; NumCPU .. 2*NumCPU+8 blocks in "
-            "thorough) + 24 random large ones in thorough; distinct by case description; non-trivial = "
+            "thorough), operation sequences on one canvas (add, MarchParallel, edits stored on one side of a block border "
+            "whose bounds begin/end exactly on it, march again with the same and another cutoff; after every march "
+            "compared with a fresh sequentially built and marched canvas; 3 + 2 random in quick, 15 + 30 in thorough) "
+            "+ 24 random large ones in thorough; distinct by case description; non-trivial = "
             "n >= 2 and pool >= 2 (mesh) / >= 2 blocks and >= 1 triangle (marching)",
     "trusted": ["Go race detector (-race build of the same harness, GORACE=halt_on_error=0): reports are attributed to the "
                 "case that was executing; absence of a report is evidence for the sampled schedules only",
